@@ -3,6 +3,7 @@ import GixModel.Lemmas.C36Multi2
 import GixModel.Lemmas.C36NoPath
 import GixModel.Lemmas.C36Path2
 import GixModel.Lemmas.C36Lead
+import GixModel.Lemmas.C36Mid
 /-
 C36 — Wildcard matching agrees with git's wildmatch.  PROPERTY THEOREMS ONLY.
 
@@ -186,22 +187,61 @@ theorem pathmode_leading_eq (m : Mode) (hpm : m.noMatchSlash = true) (p t : Byte
     · cases hds
   · cases hds
 
-/-- What path mode covers now, as one predicate: no `**/` boundary at all, or exactly one and it is
-the leading one. -/
-def PathModeCovered (p : Bytes) : Prop := PathModeOk p ∨ LeadingDoubleStarOk p = true
+/-- The patterns of tier 4: a prefix without `*` and without `[` (literals, `?`, escapes) that is empty
+or ends in `/`, then a run of two or more stars, a plain `/` behind it, and a rest `y` in which no
+further run of stars is a `**/` boundary. Examples: `a/**/b`, `src/**/*.rs`, `a/?\x/***/b*/c**`. It
+contains tier 3 (empty prefix). -/
+def MidDoubleStarOk (p : Bytes) : Bool := midAux none p
+
+/-- T4-path tier 4 (one `**/` in the middle, nothing but literals, `?` and escapes in front of it): in
+path mode, for every such pattern with fewer than 64 star bytes and every text, `wildmatch` gives git's
+answer. No star stands above the `**/`, so the ABORT_ALL of its loop goes straight to the top. -/
+theorem pathmode_mid_eq (m : Mode) (hpm : m.noMatchSlash = true) (p t : Bytes) (hok : PatOk m p)
+    (hds : MidDoubleStarOk p = true) (hcnt : (p.filter (· == 42)).length < 64) (ht : NoNul t) :
+    C36.wildmatch m p t = Spec.C36.wildmatch (flagsOf m) p t := by
+  obtain ⟨L, r, y, hp, hL, hend, hx, hy⟩ := midAux_decomp p none hds
+  subst hp
+  obtain ⟨kx, hkx⟩ := dropWhile_is_drop (· == 42) r
+  have hc : count42 y ≤ count42 r := by
+    have h1 : count42 (47 :: y) ≤ count42 r := by rw [← hx, hkx]; exact count42_drop r kx
+    have h2 : count42 (47 :: y) = count42 y := by simp [count42]
+    omega
+  have hcnt' : count42 r + 2 < 64 := by
+    have : count42 (L ++ 42 :: 42 :: r) = count42 L + (count42 r + 2) := by
+      simp [count42, List.filter_append]
+    unfold count42 at this ⊢
+    omega
+  unfold C36.wildmatch Spec.C36.wildmatch matchRecursive RECURSION_LIMIT
+  have h := go_rel_mid m hpm r y hx hy ((L ++ 42 :: 42 :: r).length + 1) 63 (L ++ 42 :: 42 :: r) t hok ht
+    L t 0 0 none (by simp) (by simp) hL hend (by simp) (by omega) rfl
+  simp only [Iter.ofSlice]
+  rcases h with h | ⟨h1, h2⟩
+  · rw [h]; cases dowild (flagsOf m) ((L ++ 42 :: 42 :: r).length + 1) none (L ++ 42 :: 42 :: r) t <;> rfl
+  · rw [h1]
+    cases hg : go m ((L ++ 42 :: 42 :: r).length + 1) 63 (L ++ 42 :: 42 :: r) t ⟨0, L ++ 42 :: 42 :: r⟩ ⟨0, t⟩ <;>
+      first | rfl | exact absurd hg h2
+
+/-- What path mode covers now, as one predicate: no `**/` boundary at all, or exactly one, with no
+star and no bracket anywhere in front of it. -/
+def PathModeCovered (p : Bytes) : Prop :=
+  PathModeOk p ∨ LeadingDoubleStarOk p = true ∨ MidDoubleStarOk p = true
 
 theorem pathmode_covered_eq (m : Mode) (hpm : m.noMatchSlash = true) (p t : Bytes) (hok : PatOk m p)
     (hds : PathModeCovered p) (hcnt : (p.filter (· == 42)).length < 64) (ht : NoNul t) :
     C36.wildmatch m p t = Spec.C36.wildmatch (flagsOf m) p t := by
-  rcases hds with h | h
+  rcases hds with h | h | h
   · exact pathmode_eq m hpm p t hok h hcnt ht
   · exact pathmode_leading_eq m hpm p t hok h hcnt ht
+  · exact pathmode_mid_eq m hpm p t hok h hcnt ht
 
--- non-vacuity: `**/foo` and `***/a*/[bc]**d/**` are covered; `a/**/b`, `**/a/**/b` and `**\/a` are not
+-- non-vacuity: `**/foo`, `***/a*/[bc]**d/**`, `a/**/b`, `src/**/*.rs` are covered;
+-- `a*/**/b` (a star above the boundary), `**/a/**/b` (two boundaries) and `**\/a` are not
 example : LeadingDoubleStarOk [42, 42, 47, 102, 111, 111] = true := by decide +kernel
 example : LeadingDoubleStarOk [42, 42, 42, 47, 97, 42, 47, 91, 98, 99, 93, 42, 42, 100, 47, 42, 42] = true := by
   decide +kernel
-example : ¬ PathModeCovered [97, 47, 42, 42, 47, 98] := by
+example : MidDoubleStarOk [97, 47, 42, 42, 47, 98] = true := by decide +kernel
+example : MidDoubleStarOk [115, 114, 99, 47, 42, 42, 47, 42, 46, 114, 115] = true := by decide +kernel
+example : ¬ PathModeCovered [97, 42, 47, 42, 42, 47, 98] := by
   unfold PathModeCovered PathModeOk; decide +kernel
 example : ¬ PathModeCovered [42, 42, 47, 97, 47, 42, 42, 47, 98] := by
   unfold PathModeCovered PathModeOk; decide +kernel
@@ -210,6 +250,9 @@ example : ¬ PathModeCovered [42, 42, 92, 47, 97] := by
 example : C36.wildmatch ⟨true, false⟩ [42, 42, 47, 102, 111, 111] [97, 47, 98, 47, 102, 111, 111] = true := by
   decide +kernel
 example : C36.wildmatch ⟨true, false⟩ [42, 42, 47, 102, 111, 111] [102, 111, 111] = true := by decide +kernel
+example : C36.wildmatch ⟨true, false⟩ [97, 47, 42, 42, 47, 98] [97, 47, 120, 47, 121, 47, 98] = true := by
+  decide +kernel
+example : C36.wildmatch ⟨true, false⟩ [97, 47, 42, 42, 47, 98] [97, 47, 98] = true := by decide +kernel
 
 /-- ABORT_ALL stays suffix-sound for these patterns. -/
 theorem abort_all_sound_path (m : Mode) (n : Nat) (prev : Option UInt8) (p t : Bytes)
